@@ -157,7 +157,8 @@ inline void geoBoundsChecks(vh::Ctx& c, vh::Rng& r, long idx) {
     if (!c.require(std::string("nan:geo-sphere:") + BN[nsel], finite3(sph.getCenter()) && std::isfinite(sph.getRadius()) && sph.getRadius() >= 0, W)) return;
     int out = 0; LD worst = -1;
     for (auto& p : pts) { if (sph.isPointOutside(p)) ++out; worst = std::max(worst, norm(V3(p) - V3(sph.getCenter())) - (LD)sph.getRadius()); }
-    c.require(std::string("contains:geo-sphere:") + BN[nsel] + ":" + cn, out == 0 && worst <= 0, [&]() { return W().set("points_outside", out).set("worst_excess", (double)worst); });
+    c.check(std::string("contains:geo-sphere:") + BN[nsel] + ":" + cn, (double)worst, 16 * 2.3e-16 * (mag + extent), [&]() { return W().set("points_outside", out).set("worst_excess", (double)worst); });
+    if (out) c.obs("geo-sphere-own-predicate-says-outside-within-rounding");
     // minimality: exact for <=4 points; Ritter upper bound otherwise
     LD bound;
     if (pts.size() <= 4) { std::vector<V3> q; for (auto& p : pts) q.push_back(V3(p)); bound = minSphereSmall(q); }
@@ -169,7 +170,8 @@ inline void geoBoundsChecks(vh::Ctx& c, vh::Rng& r, long idx) {
     // approximate (Ritter) sphere must contain as well
     Geo::Sphere ap = (nsel == 4) ? Geo::Point::calcApproxBoundingSphereIndirect(pi) : Geo::Point::calcApproxBoundingSphere(pa);
     int out2 = 0; for (auto& p : pts) if (ap.isPointOutside(p)) ++out2;
-    c.require("contains:geo-approx-sphere:" + cn, out2 == 0, [&]() { return W().set("approx_radius", ap.getRadius()).set("points_outside", out2); });
+    double w2 = -Infinity; for (auto& p : pts) w2 = std::max(w2, (double)(norm(V3(p) - V3(ap.getCenter())) - (LD)ap.getRadius()));
+    c.check("contains:geo-approx-sphere:" + cn, w2, 16 * 2.3e-16 * (mag + extent), [&]() { return W().set("approx_radius", ap.getRadius()).set("points_outside", out2); });
     // axis-aligned and oriented boxes
     c.setPhase("Geo bounding boxes " + cn);
     Array_<int> sup;
@@ -177,7 +179,8 @@ inline void geoBoundsChecks(vh::Ctx& c, vh::Rng& r, long idx) {
     int out3 = 0; Vec3 lo(Infinity), hi(-Infinity);
     for (auto& p : pts) { if (!ab.containsPoint(p)) ++out3; for (int i = 0; i < 3; ++i) { lo[i] = std::min(lo[i], p[i]); hi[i] = std::max(hi[i], p[i]); } }
     c.cover("geo-aabb:" + cn);
-    c.require("contains:geo-aabb:" + cn, out3 == 0, [&]() { return W().set("aabb_center", jv(ab.getCenter())).set("aabb_half", jv(ab.getHalfLengths())).set("points_outside", out3); });
+    double w3 = -Infinity; for (auto& p : pts) for (int i = 0; i < 3; ++i) w3 = std::max(w3, std::fabs(p[i] - ab.getCenter()[i]) - ab.getHalfLengths()[i]);
+    c.check("contains:geo-aabb:" + cn, w3, 16 * 2.3e-16 * (mag + extent), [&]() { return W().set("aabb_center", jv(ab.getCenter())).set("aabb_half", jv(ab.getHalfLengths())).set("points_outside", out3); });
     double pad = 100 * std::max(mag * 2.3e-16, 1e-13);
     c.check("tight:geo-aabb", (ab.getHalfLengths() - 0.5 * (hi - lo)).norm() + (ab.getCenter() - 0.5 * (hi + lo)).norm(), pad + 1e-12 * extent, W);
     for (int opt = 0; opt < 2; ++opt) {
@@ -188,7 +191,9 @@ inline void geoBoundsChecks(vh::Ctx& c, vh::Rng& r, long idx) {
         auto WO = [&]() { return W().set("obb_center", jv(ob.getCenter())).set("obb_half", jv(ob.getHalfLengths())).set("points_outside", out4).set("worst_excess", w4); };
         bool fin = finite3(ob.getCenter()) && finite3(ob.getHalfLengths());
         if (!c.require("nan:geo-obb:" + cn, fin, WO)) continue;
-        c.require("contains:geo-obb:" + cn, out4 == 0, WO);
+        // judged in the harness with a tolerance of a few ulps of the coordinates (the predicate itself rounds at that level)
+        c.check("contains:geo-obb:" + cn, w4, 16 * 2.3e-16 * (mag + extent), WO);
+        if (out4) c.obs("geo-obb-own-predicate-says-outside-within-rounding");
         c.require("tight:geo-obb", max(ob.getHalfLengths()) <= 0.5 * extent * (1 + 1e-6) + pad + 1e-12, WO);
     }
     if (c.wantSample()) c.sample(W());
